@@ -60,6 +60,15 @@ CLAIMED["C12"] = dict(engine="selection", technique="TLA+ specification of selec
     text="Selection.tla computes, for every valid 4-node graph with an optional alias, tags, test names and platform restrictions and for every invocation (11 pattern sets incl. absolute, relative, recursive, :all, shorthand; tag / exclude-tag; build vs test; host platform vs --all-platforms), the selected target set or the platform error, and TLC checks that the selection is dependency-closed and contains nothing else. Every pair is selected by the real selection.Selector on real model nodes and BuildGraph; a sample is run through grog build / grog test with an empty cache, where exactly the selected targets' commands must run and a platform-incompatible dependency must fail the invocation without running anything.",
     note="3 600 (quick) / ~14 000 (thorough) graphs x 132 invocations; pairs where a matched alias's target fails the filters are out of the property's domain and skipped (counted). Trusted: TLC, C17 for the meaning of pattern strings, the node builder in harness/cmd/h/selection.go.")
 
+CLAIMED["C19"] = dict(engine="traversal", technique="TLA+ specification of visited-set traversal with a work counter, checked by TLC on all small DAGs and ladders (LinearWork); work counters compiled into the real traversal loops compared with the specified bound on ladders, dense DAGs and chains",
+    category="model_checking", design_ref="DESIGN.md section 4.7, section 7 C19",
+    text="Traversal.tla specifies reachability with a visited set and proves with TLC, over every order of edge examination on all DAGs up to 4/5 nodes and on ladders, that work never exceeds |E| and the result is exactly the reachable set. The real operations (GetDescendants, GetAncestors, SelectTargetsForBuild, output-conflict detection, failure propagation in the walker) run on ladders of depth 2..40 (400 in the thorough tier), width 2 and 3, on complete DAGs and on chains of the same size; the loop iteration counts reported by the hooks must stay within |V|+|E| (|V|*(|V|+|E|) for conflict detection). A path-enumerating implementation exceeds the bound at depth 3 already, so no exponential run is ever needed to see it.",
+    note="Counts, not seconds, are judged (seconds are recorded). Trusted: the hook counters sit in the loops of the traversals; an algorithm that enumerates paths without passing those loops would not be seen.")
+CLAIMED["C20"] = dict(engine="query", technique="TLA+ specification of deps/rdeps/owners/list over a bounded graph universe with the inverse theorems checked by TLC; expected answers compared with the stdout of the real query commands; rebuild prediction compared on real edit/build runs",
+    category="model_checking", design_ref="DESIGN.md section 4.7, section 7 C20",
+    text="Query.tla defines direct/transitive dependencies and dependants on the node graph, owners and list for every 4-node graph with an optional alias and test names (392 graphs), and TLC checks in every state that deps and rdeps are mutual inverses (direct and transitive). For each graph (quick: 40, diamonds preferred) the real grog deps / rdeps (with -t and --target-type) / owners / list commands are run and their stdout must be exactly the specified label set with every label once; on a subset the workspace is built, one input file edited and rebuilt: the re-executed targets must lie inside owners(f) plus transitive rdeps as printed by the real commands and as the specification computes.",
+    note="An alias is a node of its own in the query graph; --target-type is applied to targets only. Trusted: TLC, C17 for pattern strings, the workspace renderer in vlib/checks/c20.py.")
+
 PENDING = "check not built yet in this round (specification and binding planned in DESIGN.md section 7); not claimed until its quick tier is registered"
 
 checks, na = [], []
@@ -99,6 +108,8 @@ manifest = {
    {"name": "restore", "path": "spec/Restore.tla + spec/DirLoad.tla + harness/restoredrv + vlib/checks/c06.py", "serves_properties": ["C06", "C04"], "kind_free_text": "TLC-enumerated restore cases replayed into the real handlers; read-fault subsets under synctest"},
    {"name": "analysis", "path": "spec/Analysis.tla + harness/cmd/h/analysis.go + vlib/checks/c11.py", "serves_properties": ["C11"], "kind_free_text": "TLC-enumerated graph families replayed into the real loader/analysis and the CLI"},
    {"name": "selection", "path": "spec/Selection.tla + harness/cmd/h/selection.go + vlib/checks/c12.py", "serves_properties": ["C12"], "kind_free_text": "TLC-enumerated (graph, invocation) pairs replayed into the real Selector and the CLI"},
+   {"name": "traversal", "path": "spec/Traversal.tla + harness/cmd/h/traversal.go + vlib/checks/c19.py", "serves_properties": ["C19"], "kind_free_text": "visited-set traversal spec; real work counters against the specified bound"},
+   {"name": "query", "path": "spec/Query.tla + vlib/checks/c20.py", "serves_properties": ["C20"], "kind_free_text": "TLC-exported query answers compared with the real commands' stdout"},
    {"name": "labels", "path": "spec/Labels.tla + harness/cmd/h/labels.go + vlib/checks/c17.py", "serves_properties": ["C17"], "kind_free_text": "TLC-enumerated function specification, reference table replayed into the real API"},
  ],
  "checks": checks,
